@@ -505,64 +505,65 @@ def check_framing(ctx):
               f"_parse_metadata slices the input at {slices}, expected [0:{MB}] and [{MB}:]", des.loc(pm), sample={"slices": slices})
     uses_md = any(isinstance(n, ast.Call) and isinstance(n.func, ast.Attribute) and n.func.attr == "from_buffer_copy" and repo.resolve_class(dm, n.func.value) is mdc for n in A.body_nodes(pm))
     ctx.check("C01.F", "Deserializer._parse_metadata:decodes-Metadata", uses_md, "_parse_metadata does not decode encoding.Metadata", des.loc(pm), trivial=True)
-    # deserialize_subroutine: chunking
-    defs = A.single_defs(dsub)
-    comp = None
-    for n in A.body_nodes(dsub):
-        if isinstance(n, ast.ListComp) and any(isinstance(x, ast.Call) and A.call_name(x) == "deserialize_command" for x in ast.walk(n.elt)):
-            comp = n
-    if comp is None:
-        ctx.error("C01.F", "deserialize_subroutine: list of deserialize_command(...) calls not found")
+    # deserialize_subroutine, executed by the checker's interpreter (nqsa/circuit.py) on byte strings of several lengths:
+    # whatever the loop counts (command index, byte offset, divmod, a while loop), the metadata prefix goes to _parse_metadata,
+    # the rest is cut into consecutive COMMAND_BYTES chunks which are decoded in order, a ragged tail is refused, and the
+    # Subroutine is built from the metadata fields and the decoded list
+    from .. import circuit as C
+    ok_cnt = ok_bounds = ok_meta = ok_ragged = True
+    why = {}
+    try:
+        for k in (0, 1, 3, 10):
+            for extra in (0, 1, CB - 1):
+                body = bytes((37 * j + 11) % 251 for j in range(k * CB + extra))
+                raw = bytes(range(1, MB + 1)) + body
+                seen = []
+
+                def dec(chunk=None, raw=None, seen=seen, **kw_):
+                    c_ = chunk if chunk is not None else raw if raw is not None else (list(kw_.values()) or [None])[0]
+                    seen.append(c_)
+                    return ("instr", len(seen) - 1)
+
+                sc = C.Scenario()
+                sc.overrides["deserialize_command"] = dec
+                sc.overrides["_parse_metadata"] = lambda r_: (C.Obj(None, {"netqasm_version": [3, 1], "app_id": 7}), r_[MB:])
+                o = C.object_from_init(repo, des, {"flavour": C.Obj(None, {})}, kind="self")
+                try:
+                    out = C.Interp(repo, ev, sc, des).call_function(dm, dsub, [raw], {}, self_obj=o)
+                    raised = None
+                except C.EvalRaise as ex_:
+                    out, raised = None, ex_.exc_name
+                if extra:
+                    if raised is None:
+                        ok_ragged = False
+                        why["ragged"] = f"{k * CB + extra} bytes after the metadata ({k} commands and {extra} more bytes) are accepted"
+                    continue
+                if raised is not None:
+                    ok_cnt = False
+                    why["cnt"] = f"{k} whole commands after the metadata raise {raised}"
+                    continue
+                want = [body[j * CB:(j + 1) * CB] for j in range(k)]
+                if len(seen) != k:
+                    ok_cnt = False
+                    why["cnt"] = f"{k} commands after the metadata: {len(seen)} chunks are decoded"
+                elif seen != want:
+                    ok_bounds = False
+                    j = next(i_ for i_ in range(k) if seen[i_] != want[i_])
+                    got_at = body.find(seen[j]) if isinstance(seen[j], bytes) and seen[j] else -1
+                    why["bounds"] = f"chunk {j} of {k} is {len(seen[j]) if isinstance(seen[j], bytes) else '?'} bytes from offset {got_at}, expected {CB} bytes from offset {j * CB}"
+                f_ = out.fields if isinstance(out, C.Obj) else {}
+                if not (isinstance(out, C.Obj) and out.cls is not None and out.cls.name == "Subroutine" and f_.get("netqasm_version") == (3, 1) and f_.get("app_id") == 7
+                        and f_.get("instructions") == [("instr", j) for j in range(k)]):
+                    ok_meta = False
+                    why["meta"] = f"with {k} commands the result is {out!r} with {f_}"
+    except AnalysisError as ex_:
+        ctx.error("C01.F", f"deserialize_subroutine cannot be evaluated: {ex_}")
     else:
-        gen = comp.generators[0]
-        ivar = gen.target.id if isinstance(gen.target, ast.Name) else None
-        sl = None
-        for x in ast.walk(comp.elt):
-            if isinstance(x, ast.Subscript) and isinstance(x.slice, ast.Slice):
-                sl = x
-        rng = A.expand(gen.iter, defs)
-        # the chunks are evaluated for several input lengths, whatever the loop counts (command index or byte offset):
-        # for len(data) = k * COMMAND_BYTES they must be data[0:C], data[C:2C], ... data[(k-1)C:kC], in that order
-        cnt_ok = ch_ok = False
-        if isinstance(rng, ast.Call) and dotted(rng.func) == "range" and 1 <= len(rng.args) <= 3 and not gen.ifs and sl is not None and ivar:
-            sl_lo = A.expand(sl.slice.lower, defs) if sl.slice.lower is not None else None
-            sl_hi = A.expand(sl.slice.upper, defs) if sl.slice.upper is not None else None
-            try:
-                cnt_ok = ch_ok = True
-                for k in (0, 1, 3, 10):
-                    L = k * CB
-                    idx = list(range(*[_eval_with_len(ev, dm, a_, L) for a_ in rng.args]))
-                    if len(idx) != k:
-                        cnt_ok = False
-                    b = [((_eval_with_len_env(ev, dm, sl_lo, L, {ivar: i}) if sl_lo is not None else 0), (_eval_with_len_env(ev, dm, sl_hi, L, {ivar: i}) if sl_hi is not None else L)) for i in idx]
-                    if b != [(j * CB, (j + 1) * CB) for j in range(len(idx))] or sl.slice.step is not None:
-                        ch_ok = False
-            except (Unknown, TypeError, ValueError):
-                cnt_ok = ch_ok = False
-        ctx.check("C01.F", "Deserializer.deserialize_subroutine:chunk-count", cnt_ok, f"number of chunks {src(gen.iter)} is not len(data)/COMMAND_BYTES", des.loc(dsub))
-        ctx.check("C01.F", "Deserializer.deserialize_subroutine:chunk-bounds", ch_ok,
-                  f"chunk i is not data[i*{CB}:(i+1)*{CB}]: {src(sl) if sl is not None else None}", des.loc(dsub), sample={"chunk": src(sl) if sl is not None else None})
-    # Subroutine(...) kwargs
-    subcall = None
-    for r in A.returns(dsub):
-        if isinstance(r.value, ast.Call) and A.call_name(r.value) == "Subroutine":
-            subcall = r.value
-    if subcall is None:
-        ctx.error("C01.F", "deserialize_subroutine does not return Subroutine(...)")
-    else:
-        kw = A.kwargs_of(subcall)
-        mdvar = None
-        for n in A.body_nodes(dsub):
-            if isinstance(n, ast.Assign) and isinstance(n.value, ast.Call) and A.call_name(n.value) == "_parse_metadata" and isinstance(n.targets[0], ast.Tuple):
-                mdvar = n.targets[0].elts[0].id
-        for k, fld in (("netqasm_version", "netqasm_version"), ("app_id", "app_id")):
-            v = kw.get(k)
-            good = v is not None and any(isinstance(x, ast.Attribute) and x.attr == fld and isinstance(x.value, ast.Name) and x.value.id == mdvar for x in ast.walk(v)) and \
-                not any(isinstance(x, ast.Attribute) and x.attr != fld and isinstance(x.value, ast.Name) and x.value.id == mdvar for x in ast.walk(v))
-            ctx.check("C01.F", f"Deserializer.deserialize_subroutine:{k}", good, f"Subroutine({k}=...) is not taken from metadata.{fld}: {src(v) if v is not None else None}", des.loc(dsub))
-        v = kw.get("instructions")
-        good = v is not None and comp is not None and (v is comp or (isinstance(v, ast.Name) and defs.get(v.id) is comp))
-        ctx.check("C01.F", "Deserializer.deserialize_subroutine:instructions", good, "Subroutine(instructions=...) is not the decoded list", des.loc(dsub), trivial=True)
+        ctx.check("C01.F", "Deserializer.deserialize_subroutine:chunk-count", ok_cnt, f"the number of decoded chunks is not len(data)/COMMAND_BYTES: {why.get('cnt')}", des.loc(dsub))
+        ctx.check("C01.F", "Deserializer.deserialize_subroutine:chunk-bounds", ok_bounds, f"chunk i is not data[i*{CB}:(i+1)*{CB}]: {why.get('bounds')}", des.loc(dsub))
+        ctx.check("C01.F", "Deserializer.deserialize_subroutine:ragged-tail-refused", ok_ragged, f"a byte string that is not a whole number of commands is not refused: {why.get('ragged')}", des.loc(dsub))
+        ctx.check("C01.F", "Deserializer.deserialize_subroutine:built-from-metadata-and-decoded-list", ok_meta,
+                  f"Subroutine(netqasm_version, app_id, instructions) is not built from the metadata fields and the decoded commands in order: {why.get('meta')}", des.loc(dsub))
     # deserialize_command: peek byte 0, dispatch by id, decode the same chunk
     params = A.param_names(dcmd)
     rawp = params[1]
@@ -663,7 +664,7 @@ SEEDS = [
          old="        start = Register.from_raw(raw.start)\n        stop = Register.from_raw(raw.stop)", new="        start = Register.from_raw(raw.stop)\n        stop = Register.from_raw(raw.start)"),
     dict(id="c01-frame-chunk", file="netqasm/lang/parsing/binary.py", expect="C01.F", construct="chunk",
          old="raw[i * encoding.COMMAND_BYTES : (i + 1) * encoding.COMMAND_BYTES]", new="raw[i * encoding.COMMAND_BYTES : (i + 1) * encoding.COMMAND_BYTES - 1]"),
-    dict(id="c01-frame-appid", file="netqasm/lang/parsing/binary.py", expect="C01.F", construct="app_id",
+    dict(id="c01-frame-appid", file="netqasm/lang/parsing/binary.py", expect="C01.F", construct="built-from-metadata",
          old="app_id=metadata.app_id,", new="app_id=metadata.netqasm_version[0],"),
     dict(id="c01-frame-filter", file="netqasm/lang/subroutine.py", expect="C01.F", construct="all-instructions",
          old="[instr.serialize() for instr in self.instructions]", new="[instr.serialize() for instr in self.instructions if instr.operands]"),
